@@ -81,15 +81,19 @@ CHECKS["C01"] = {
     ],
 }
 
+REVERT_SHAPES = "8 shapes of the reverted transaction (single, from world, chain a->b->c, two-asset chain, same pair twice, self-posting, to world, ping-pong) x force x atEffectiveDate, optionally followed by a later transaction that spends the credited funds"
+
 CHECKS["C15"] = {
     "level": "other",
-    "explanation": "Go half of revert exactness: the real Postings.Reverse / Transaction.Reverse are executed symbolically (symbolic names, unbounded amounts): reversed order, swapped ends, asset and amount kept, receiver not mutated, and T followed by its reverse nets every (account, asset) to zero through the real VolumeUpdates.",
-    "bounds": {"quick": "N <= 4 postings (net-zero through VolumeUpdates: N <= 2)", "thorough": "N <= 6 postings (net-zero: N <= 2)"},
-    "outside": "the controller's revertTransaction (timestamps, metadata mark, already-reverted, concurrency) and the SQL update are not covered yet",
-    "assumptions": COMMON_ASSUME,
+    "explanation": "(a) The real Postings.Reverse / Transaction.Reverse are executed symbolically (symbolic names, unbounded amounts): reversed order, swapped ends, asset and amount kept, receiver not mutated, and T followed by its reverse nets every (account, asset) to zero through the real VolumeUpdates. (b) The real revertTransaction/forgeLog run on the store model with symbolic amounts and symbolic starting balances: one new transaction whose postings are T's reversed and swapped, the revert metadata mark (plus request metadata), timestamp = T's timestamp iff atEffectiveDate else the revert time, T marked reverted, balances restored (T plus its revert is neutral), a non-forced revert refused with insufficient funds exactly when some non-world account would end negative and then without effect, a second revert fails with already-reverted and no effect, a revert of the revert re-applies T; no reachable panic.",
+    "bounds": {"quick": "(a) N <= 4 postings (net-zero through VolumeUpdates: N <= 2); (b) " + REVERT_SHAPES, "thorough": "(a) N <= 6 postings; (b) same"},
+    "outside": "concurrent reverts of one transaction and the SQL of the revert update (updateTxWithRetrieve) — not covered; transactions outside the listed shapes",
+    "assumptions": COMMON_ASSUME + ["(b) uses the store model: see C07"],
     "units": [
         unit("./internal", CORE_FILES, "^Harness_C15_Reverse_n[1-4]$", QT, flags={"labels": "^C15:"}),
         unit("./internal", CORE_FILES, "^Harness_C15_Reverse_n[56]$", T, flags={"labels": "^C15:"}),
+        unit("./internal/controller/ledger", ["ctrl/dbmodel.go", "ctrl/lib.go", "ctrl/c25.go", "ctrl/ops.go", "ctrl/ops_gen.go", "ctrl/revert.go", "ctrl/revert_gen.go", "ctrl/refreplay.go"], "^Harness_REVC_", QT, flags={"labels": "^C15:", "max-decisions": 4000}, reach=["end"]),
+        unit("./internal/controller/ledger", ["ctrl/dbmodel.go", "ctrl/lib.go", "ctrl/c25.go", "ctrl/ops.go", "ctrl/ops_gen.go", "ctrl/revert.go", "ctrl/revert_gen.go", "ctrl/refreplay.go"], "^Harness_REVS_", QT, flags={"labels": "^C15:", "max-decisions": 4000}, reach=["end"]),
     ],
 }
 
@@ -111,7 +115,7 @@ CHECKS["C03"] = {
     ],
 }
 
-CTRL_FILES = ["ctrl/dbmodel.go", "ctrl/lib.go", "ctrl/c25.go", "ctrl/ops.go", "ctrl/ops_gen.go"]
+CTRL_FILES = ["ctrl/dbmodel.go", "ctrl/lib.go", "ctrl/c25.go", "ctrl/ops.go", "ctrl/ops_gen.go", "ctrl/revert.go", "ctrl/revert_gen.go", "ctrl/refreplay.go"]
 CTRL_PKG = "./internal/controller/ledger"
 DBMODEL_ASSUME = [
     "dbmodel (harness/ctrl/dbmodel.go) stands for the SQL store below the controller's Store interface: tables as Go values, transactional write sets applied on Commit and dropped on Rollback, autocommit on a non-transactional handle, unique keys (ledger,id), (ledger,reference), (ledger,idempotency_key), (ledger,address), non-transactional sequences, 'a failed statement aborts the transaction', transaction_date() constant inside a transaction. It is trusted, not verified (no PostgreSQL in the sandbox)",
